@@ -460,7 +460,9 @@ class TransactionManager(Elaboratable):
         m = TModule()
         m._MustUse__silence = True  # type: ignore
 
-        for transaction in joined_transactions:
+        # (transactions that take part in simultaneity but ended up in no group can never run; they are still turned into
+        # (uncalled) methods so that bodies nested in them keep their ready dependency)
+        for transaction in joined_transactions | all_simultaneous:
             method = Method(name=transaction.name, src_loc=transaction.src_loc)
             method._set_impl(transaction)
             DependencyContext.get().add_dependency(ProvidedMethodsKey(), method)
